@@ -28,6 +28,8 @@ type Engine struct {
 	staleContracts []staleContract
 	shapesBase  map[string]bodyShape // loop / literal signatures per body under contract at baseline time
 	funcsBase   map[string]bool // names of all repository functions at baseline time (nil: unknown)
+	newMethods  map[string][]string // receiver type -> methods that are not in the baseline (the type was)
+	verifDir    string              // the --verif directory (stubs, baseline, replay templates)
 	localsBase  map[string][]localDecl // baseline declarations per function (rename repair)
 	renameCache map[*types.Func]*renameMaps
 	renameMu    sync.Mutex
@@ -66,7 +68,7 @@ func (e *Engine) errorf(format string, a ...interface{}) {
 func LoadEngine(repoDir, verifDir string) (*Engine, error) {
 	e := &Engine{contracts: map[*types.Func]*FuncContract{}, byName: map[string]*FuncContract{}, funcs: map[*types.Func]*fnInfo{},
 		specFuncs: map[string]*SpecFunc{}, ghostVars: map[string]types.Type{}, ghostFlds: map[string]types.Type{}, sorts: map[string]bool{},
-		guards: map[string]*Guard{}, typeTags: map[string]int{}, allPkgs: map[string]*packages.Package{}, repoDir: repoDir}
+		guards: map[string]*Guard{}, typeTags: map[string]int{}, allPkgs: map[string]*packages.Package{}, repoDir: repoDir, verifDir: verifDir}
 	e.fset = token.NewFileSet()
 	cfg := &packages.Config{Mode: packages.LoadAllSyntax, Dir: repoDir, BuildFlags: []string{"-tags", "verif"}, Fset: e.fset,
 		Env: append(os.Environ(), "GOFLAGS=-mod=mod", "GOPROXY=off", "GOSUMDB=off", "GOTOOLCHAIN=local")}
